@@ -147,6 +147,7 @@ Theorem C03_fixpoint_two : forall sc1 sc2 c0,
   fix_opts sc2 = true ->
   map l_id (sc_local sc2) = map l_id (sc_local sc1) ->
   (o_prune (sc_opts sc2) = true -> o_prune (sc_opts sc1) = true) ->
+  sc_univ sc2 = sc_univ sc1 ->
   fix_ok (out_final (run sc1 c0)) (run sc2 (out_final (run sc1 c0))) = true.
 Proof. exact (fixpoint_two monitor_C03). Qed.
 
@@ -161,7 +162,7 @@ Proof. exact (fixpoint_no_create_delete monitor_C03). Qed.
 
 (* the executable check of the correspondence accepts the model's own two-run history *)
 Theorem C03_fixpoint_monitor : forall sc1 sc2 c0,
-  WF sc1 c0 -> pl_invalid (plan_of sc1 c0) = [] -> NoDup (prev_of c0) ->
+  WF sc1 c0 -> pl_invalid (plan_of sc1 c0) = [] -> NoDup (prev_of c0) -> sc_univ sc2 = sc_univ sc1 ->
   c03_fixpoint c0 [(sc1, run sc1 c0); (sc2, run sc2 (out_final (run sc1 c0)))] = true.
 Proof. exact (fixpoint_monitor monitor_C03). Qed.
 
@@ -180,6 +181,17 @@ Theorem C03_fixpoint_two_needs_prune_agree : exists sc1 sc2 c0,
   fix_ok (out_final (run sc1 c0)) (run sc2 (out_final (run sc1 c0))) = false /\
   c03_fixpoint c0 [(sc1, run sc1 c0); (sc2, run sc2 (out_final (run sc1 c0)))] = true.
 Proof. exact fix_two_needs_prune_agree. Qed.
+
+(* dynamic type knowledge: the two scenarios must describe the same universe (kinds, CRD of each custom
+   resource); otherwise the second run may not know the kind of a tracked object, skip it unread and drop it
+   from the inventory.  The executable check rejects that history as well. *)
+Theorem C03_fixpoint_two_needs_same_universe : exists sc1 sc2 c0,
+  WF sc1 c0 /\ fix_hyps sc1 c0 = true /\ fix_second sc1 sc2 = true /\ sc_univ sc2 <> sc_univ sc1 /\
+  fix_ok (out_final (run sc1 c0)) (run sc2 (out_final (run sc1 c0))) = false /\
+  c03_fixpoint c0 [(sc1, run sc1 c0); (sc2, run sc2 (out_final (run sc1 c0)))] = false /\
+  wf_b sc2 (out_final (run sc1 c0)) = false /\
+  fix_ok (out_final (run sc1 c0)) (run sc1 (out_final (run sc1 c0))) = true.
+Proof. exact fix_two_needs_same_universe. Qed.
 
 Theorem C03_fixpoint_two_needs_nodup : exists sc1 sc2 c0,
   WF sc1 c0 /\ clean_run sc1 (run sc1 c0) = true /\ pl_invalid (plan_of sc1 c0) = [] /\
@@ -287,3 +299,4 @@ Print Assumptions C03_fixpoint_monitor.
 Print Assumptions C03_stable_bool.
 Print Assumptions C03_fixpoint_two_needs_prune_agree.
 Print Assumptions C03_fixpoint_two_needs_nodup.
+Print Assumptions C03_fixpoint_two_needs_same_universe.
